@@ -193,6 +193,14 @@ def classify(impl, model):
         props |= {"C06", "C08", "C03"}
     if "ev=" in diff or "skip" in diff:
         props |= {"C16"}
+    # unbounded builds: capacity after shrink / growth (C20, and what the ordering and conservation arguments need from the
+    # queue), grants, blocks and drops at the maximum capacity (C09, C08), a record over the maximum rejected with an error
+    if "cap=" in diff or "n:alloc" in diff:
+        props |= {"C20", "C03", "C05", "C09"}
+    if "threw" in diff or "bytes=" in diff:
+        props |= {"C03", "C08", "C09"}
+    if "parked" in diff:
+        props |= {"C09"}
     return props or set(PROPS)
 
 
